@@ -29,16 +29,30 @@ def mk_parts(ctx, prefix, nparts, n, strand="sym"):
     return parts
 
 
-def build_location(stack, parts):
-    locs = [stack.SimpleLocation(s, e, strand=st) for (s, e, st) in parts]
+def build_location(stack, parts, operator="join", fuzzy=None):
+    """fuzzy: None or a two-letter word per part over e(xact) b(efore, '<5') a(fter, '>5')"""
+    def pos(v, kind):
+        return v if kind == "e" else (stack.BeforePosition if kind == "b" else stack.AfterPosition)(v)
+
+    if fuzzy is None:
+        locs = [stack.SimpleLocation(s, e, strand=st) for (s, e, st) in parts]
+    else:
+        locs = [stack.SimpleLocation(pos(s, fz[0]), pos(e, fz[1]), strand=st) for (s, e, st), fz in zip(parts, fuzzy)]
     if len(locs) == 1:
         return locs[0]
-    return stack.CompoundLocation(locs)
+    return stack.CompoundLocation(locs, operator=operator)
 
 
-def build_feature(stack, parts, ftype="misc_feature", quals=None, fid="<unknown id>"):
-    return stack.SeqFeature(build_location(stack, parts), type=ftype, id=fid,
+def build_feature(stack, parts, ftype="misc_feature", quals=None, fid="<unknown id>", operator="join", fuzzy=None):
+    return stack.SeqFeature(build_location(stack, parts, operator, fuzzy), type=ftype, id=fid,
                             qualifiers=quals if quals is not None else {})
+
+
+def location_kinds(feature):
+    """[(kind of start, kind of end)] per part: 'exact' | 'before' | 'after'"""
+    from symx.models.bio import position_kind
+
+    return [(position_kind(p.start), position_kind(p.end)) for p in feature.location.parts]
 
 
 def parts_of(feature):
